@@ -34,7 +34,7 @@ def items(tier: str) -> List[Any]:
             full = full + A.cross_block(a)
         # RekeyTo gets the full structure space; the other three fields share the code path and get
         # the atom table + smaller structure spaces in the quick tier
-        l2 = None if (field == "RekeyTo" or tier != "quick") else 2
+        l2 = None if field == "RekeyTo" or (tier != "quick" and field == "Sender") else (2 if tier == "quick" else 3)
         for s in spaces.layered(full, small, tier, l2_size=l2, l3=(field in ("RekeyTo", "Sender") or tier != "quick"),
                                 chains=(field == "RekeyTo" or tier != "quick")):
             if s not in seen:
